@@ -331,6 +331,56 @@ def corpus():
                     bpms=[[R(-500), R(37)], [R(1), R(37)]], bpm_perm=[1, 0],
                     charts=[dict(type="dance-threepanel", desc="d", diff="H", meter=0, radar=[R(0.0)], notes=[hit(0, 3450)])],
                     rate=None, history=[["append_bpm", [[300, 1], [240, 1]]]]))
+    # ---- the class LONG UNSORTED LISTS WITH TIES, by hand: rows at one offset, the later row of the list is in force
+    # (Props/C03 `tie_later_wins`, `tie_order_counterexample`): 8=60 then 8=240 is 240 bpm from beat 8 on
+    tie_notes = [hit(0, 0), hit(1, 4000), hit(2, 4500), ["hold", 3, R(5000.0), R(750.0)], hit(0, 6000)]
+    out.append(dict(claim="write", origin="built", mode="line", style="grid", hdr=hdr0,
+                    bpms=[[R(0), R(120), 0], [R(4000), R(60), 1], [R(4000), R(240), 2]],
+                    charts=[dict(type="dance-single", desc="", diff="Easy", meter=1, radar=[R(0.0)] * 5, notes=tie_notes)], rate=None))
+    # the same rows listed out of time order (the overriding row first in the list, then the first tempo point)
+    out.append(dict(claim="write", origin="built", mode="line", style="grid", hdr=hdr0,
+                    bpms=[[R(0), R(120), 1], [R(4000), R(60), 0], [R(4000), R(240), 2]],
+                    charts=[dict(type="dance-single", desc="", diff="Easy", meter=1, radar=[R(0.0)] * 5, notes=tie_notes)], rate=None))
+    # 24 rows, reversed in blocks, three tied positions (one of them three rows deep), objects after each of them
+    rows24 = []
+    t, cur = Fr(0), None
+    for i in range(20):
+        if cur is not None:
+            t += 4 * Fr(60000) / cur
+        cur = Fr(120 if i % 2 == 0 else 240)
+        rows24.append([t, cur, 100 - i])
+        if i in (3, 11, 17):
+            cur = Fr(60)
+            rows24.append([t, cur, 200 + i])
+        if i == 11:
+            cur = Fr(150)
+            rows24.append([t, cur, 300])
+    last_t = t
+    out.append(dict(claim="write", origin="built", mode="line", style="grid", hdr=hdr0,
+                    bpms=[[R(float(o)), R(float(b)), k] for o, b, k in rows24],
+                    charts=[dict(type="dance-single", desc="", diff="Easy", meter=1, radar=[R(0.0)] * 5,
+                                 notes=[hit(0, 0)] + [hit(i % 4, float(o) + 60000.0 / float(b) * 1.5) for i, (o, b, k) in enumerate(rows24)
+                                                      if k >= 200 and not (k == 211)] +
+                                       [["roll", 2, R(float(last_t) + 250.0), R(1000.0)]])], rate=None))
+    # ---- the hypotheses of `write_read_exact` that are necessary, replayed on the implementation: the model's
+    # counterexamples of Props/C03 (`cap_counterexample`, `collision_counterexample`, `overlap_counterexample`,
+    # `offset_counterexample`) as inputs - (C) compares the implementation's text with the model's character for character
+    # objects at beats 5/9, 1/32, 1/5 of one measure (denominators 36, 128, 20): 384 rows, the first one at row 53 = beat 53/96
+    out.append(dict(claim="write", origin="built", mode="line", style="capped", hdr=hdr0, bpms=[[R(0), R(120)]],
+                    charts=[dict(type="dance-single", desc="", diff="Easy", meter=1, radar=[R(0.0)] * 5,
+                                 notes=[hit(0, 2500.0 / 9), hit(1, 500.0 / 32), hit(2, 100.0)])], rate=None))
+    # two objects in one (row, column): the later one of the writer's order is the one written
+    out.append(dict(claim="write", origin="built", mode="line", style="grid", hdr=hdr0, bpms=[[R(0), R(120)]],
+                    charts=[dict(type="dance-single", desc="", diff="Easy", meter=1, radar=[R(0.0)] * 5,
+                                 notes=[hit(1, 0), ["mine", 1, R(0), R(0)], hit(2, 500)])], rate=None))
+    # two holds of one column that overlap: head, head, tail, tail in the column
+    out.append(dict(claim="write", origin="built", mode="line", style="grid", hdr=hdr0, bpms=[[R(0), R(120)]],
+                    charts=[dict(type="dance-single", desc="", diff="Easy", meter=1, radar=[R(0.0)] * 5,
+                                 notes=[["hold", 0, R(0), R(1000.0)], ["hold", 0, R(500.0), R(1000.0)]])], rate=None))
+    # #OFFSET different from the first tempo point (outside the property's domain): everything is written 1 s off
+    out.append(dict(claim="write", origin="built", mode="line", style="grid", hdr=dict(hdr0, offset=R(1000)), bpms=[[R(0), R(120)]],
+                    charts=[dict(type="dance-single", desc="", diff="Easy", meter=1, radar=[R(0.0)] * 5,
+                                 notes=[hit(0, 0), hit(1, 2000)])], rate=None))
     # two tempo points one millisecond apart snap to the same beat: outside the domain, must not be judged
     out.append(dict(claim="write", origin="built", mode="line", style="grid", hdr=hdr0, bpms=[[R(0), R(37)], [R(1), R(30)]],
                     charts=[dict(type="kb7-single", desc="a", diff="B", meter=0, radar=[R(0.0)], notes=[])], rate=None))
